@@ -585,6 +585,15 @@ pub mod mpsc {
         pub fn len(&self) -> usize {
             ctr(self.id).len
         }
+        pub fn capacity(&self) -> usize {
+            ctr(self.id).free
+        }
+        pub fn max_capacity(&self) -> usize {
+            ctr(self.id).cap
+        }
+        pub fn sender_strong_count(&self) -> usize {
+            ctr(self.id).tx_count
+        }
         pub fn recv(&mut self) -> RecvFut<'_, T> {
             RecvFut { rx: self }
         }
